@@ -88,3 +88,12 @@ func orderAckOK(s *dstore) (err error) {
 func orderNoEvent(s *dstore) error {
 	return s.tx.Sync()
 }
+
+// EXPECT fail not-evaluable
+func staleContract(b []byte) int {
+	n := 0
+	for i := 0; i < len(b); i++ {
+		n += int(b[i])
+	}
+	return n
+}
